@@ -9,7 +9,7 @@ INF = float("inf")
 
 # ------------------------------------------------------------------ wire: theta trees -> S-expressions
 
-_TOK_K = {"LPAR": "lpar", "RPAR": "rpar", "COMMA": "comma", "WS": "ws", "FIX": "fix"}
+_TOK_K = {"LPAR": "lpar", "RPAR": "rpar", "COMMA": "comma", "WS": "ws", "FIX": "fix", "SD": "sd", "VAR": "var"}
 
 
 def val_wire(f: float):
@@ -61,6 +61,30 @@ def rec_wire(root):
             w[0] = "other"
             out.append(["tok", w])
     return out
+
+
+def drec_wire(root):
+    """children of the root of a diagonal $OMEGA/$SIGMA record"""
+    from pharmpy.internals.parse import AttrTree
+    out = []
+    for ch in root.children:
+        if isinstance(ch, AttrTree) and str(ch.rule) == "diag_item":
+            out.append(["item", [tnode_wire(c) for c in ch.children]])
+        elif isinstance(ch, AttrTree) and str(ch.rule) == "diagonal":
+            w = tnode_wire(ch)
+            w[0] = "other"
+            out.append(["diagonal", w])
+        else:
+            w = tnode_wire(ch)
+            w[0] = "other"
+            out.append(["tok", w])
+    return out
+
+
+def oparam_wire(raw, fix):
+    raw = float(raw)
+    s = str(int(raw)) if raw.is_integer() else str(raw)
+    return [val_wire(raw), s, bool(fix)]
 
 
 def norm(x):
